@@ -173,6 +173,53 @@ func (c *Ctx) foldSerialiser(r *Report, ser, render *ssa.Function, mode string) 
 		}
 	}
 	paths, _ := c.enumPathsOpt(ser, 20000, fo)
+	// an absent operand (nil interface) serialises to the empty string: Render adds no text of its own for it
+	{
+		nilOK, nilBad, nilPos := false, "", ""
+		for _, p := range paths {
+			if p.Ret == nil || len(p.Ret.Results) < 2 {
+				continue
+			}
+			if ek, ok := c.resolve(p.Ret.Results[len(p.Ret.Results)-1], p.Env).(*ssa.Const); !ok || !ek.IsNil() {
+				continue
+			}
+			mayBeNil, isNil := true, false
+			for _, a := range p.Atoms {
+				if a.Subj != "$1" {
+					continue
+				}
+				if a.Kind == "type" && a.Pos {
+					mayBeNil = false
+				}
+				if a.Kind == "nil" {
+					if a.Pos {
+						isNil = true
+					} else {
+						mayBeNil = false
+					}
+				}
+			}
+			if !mayBeNil {
+				continue
+			}
+			k, isConst := c.resolve(p.Ret.Results[0], p.Env).(*ssa.Const)
+			if isConst && k.Value != nil && k.Value.ExactString() == `""` {
+				if isNil {
+					nilOK = true
+				}
+				continue
+			}
+			nilBad, nilPos = c.key(p.Ret.Results[0], p.Env), c.instrPos(p.Ret)
+		}
+		switch {
+		case nilBad != "":
+			r.bad(rule, mode+"|serialiser|nil-operand", nilPos, fmt.Sprintf("%s can return %s for an operand that is nil (no dynamic type was established on this path and the operand was not compared with nil): a node without a right child hands its render function text that Render invented instead of the empty string", fnName(ser), nilBad))
+		case nilOK:
+			r.ok(rule, mode+"|serialiser|nil-operand", c.pos(ser.Pos()), "a nil operand serialises to the empty string")
+		default:
+			r.bad(rule, mode+"|serialiser|nil-operand", c.pos(ser.Pos()), fnName(ser)+" has no path that answers a nil operand with the empty string")
+		}
+	}
 	successSeqs := map[string][][]string{}
 	inconsistent := map[string]bool{}
 	allSeqs := map[string][][]string{}
